@@ -32,6 +32,15 @@ func Awkward() []*Grammar {
 	lit("long-nonascii", "xαβγδεζηθικλμνξοπρστυφχψω", "αβγδεζηθικλμνξοπρστυφχψωαβγδεζηθ", "日本語のとても長いリテラル文字列です。これは三十二バイトを超えます", "aaaaaaaaaaaaaaaaaaaaaaaaaaaaaaaé")
 	lit("illegal-in-go", "a\x00b", "x\ufeffy", "\x7f\x01", "\u2028", "\u200e")
 
+	// header code that looks like template, printf or $-syntax to a generator that treats it as anything but opaque text
+	hdr := func(name, code string) {
+		add(&Grammar{ID: "awk-header-" + name, Seps: wsSeps, HeaderCode: code,
+			Lex:   append(letters(), LexDef{Kind: LexToken, Name: "id", Pattern: `_letter {_letter}`, Samples: []string{"a", "bc"}}, ws()),
+			Prods: []*Prod{P("S", Al(Call(T(0)), "id"), Al(Call(A(0), T(1)), "S", "id"))}})
+	}
+	hdr("nested", "var scale_ = [][]int64{{1}}\n\nvar name_ = [][]string{{`x`}}")
+	hdr("pairs", "var grid_ = [][][]int{{{2}}, {{3}}}\n\nvar pairs_ = [][]string{{\"a\"}, {\"b\"}}\n\nconst format_ = \"%d %s %% {{.}} {{end}} $0 $T1 $Context\"\n\nvar raw_ = `back\\slash {{ range . }} %v\n second line`\n\ntype pair_ struct{ a, b int }\n\nvar zero_ = []pair_{{}, {1, 2}}")
+
 	// Go keywords and predeclared names as token names and regdef names
 	add(&Grammar{ID: "awk-toknames", Seps: wsSeps,
 		Lex: []LexDef{
